@@ -1,2 +1,78 @@
+"""Python legs of C08: the seed is part of the script, is carried by copies, and reaches the engine unchanged."""
+from .. import pysym
+
+HARNESS = r'''
+from strengths import *
+from strengths.rdscript import RDScript, rdscript_to_dict, rdscript_from_dict
+from strengths.librdengine import LibRDEngine
+from harness.c12lib import mk_system
+from vt.glue import RecLib, GRID_NAMES
+
+_S = None
+
+
+def system():
+    global _S
+    if _S is None:
+        _S = mk_system(0, 0, 0)
+    return _S
+
+
+def seed_kept(seed):
+    s = RDScript(system(), [0, 1.0], rng_seed=seed)
+    return s.rng_seed == seed and s.copy().rng_seed == seed and rdscript_from_dict(rdscript_to_dict(s)).rng_seed == seed
+
+
+def seed_drawn(k):
+    s = RDScript(system(), [0, 1.0])          # no seed given: one is drawn and stored
+    v = s.rng_seed
+    return isinstance(v, int) and 0 <= v < 2 ** 32 and s.copy().rng_seed == v and rdscript_from_dict(rdscript_to_dict(s)).rng_seed == v
+
+
+def seed_reaches_engine(k, opt):
+    seed = [0, 1, 12345, 2 ** 31 - 1, 2 ** 31, 2 ** 32 - 1][k]
+    lib = RecLib()
+    option = ["euler", "tauleap", "gillespie"][opt]
+    e = LibRDEngine(lib, option=option, requires_molecules=option != "euler")
+    sc = RDScript(system(), [0, 1.0], rng_seed=seed)
+    e.setup(sc)
+    name, vals = [c for c in lib.log if c[0].startswith("engineexport_initialize")][0]
+    got = dict(zip(GRID_NAMES, vals))["seed"]
+    # the C ABI takes an int: the value must be the script's seed modulo 2^32 (std::mt19937 seeds with the low 32 bits)
+    return (got - seed) % (2 ** 32) == 0 and e.get_output.__self__._script.rng_seed == seed
+'''
+
+
 def run(rec):
-    pass
+    rec.assume("the script's seed: symbolic for the store/copy/dict legs (CrossHair); boundary seeds {0, 1, 12345, 2^31-1, 2^31, 2^32-1} x engine kinds for the value that reaches the C ABI (ctypes realises it), compared modulo 2^32")
+    rec.encoded("RDScript.rng_seed / copy, rdscript_to_dict/from_dict, LibRDEngine.setup (seed argument)")
+    text = HARNESS + '''
+
+def h_seed_kept(seed: int) -> bool:
+    """
+    pre: 0 <= seed < 4294967296
+    post: _
+    """
+    return seed_kept(seed)
+
+
+def h_seed_drawn(k: int) -> bool:
+    """
+    pre: 0 <= k <= 40
+    post: _
+    """
+    return seed_drawn(k)
+
+
+def h_seed_reaches_engine(k: int, opt: int) -> bool:
+    """
+    pre: 0 <= k <= 5 and 0 <= opt <= 2
+    post: _
+    """
+    return seed_reaches_engine(k, opt)
+'''
+    mod = pysym.write_module("hgen_C08", text)
+    pysym.run_auto(rec, mod, [
+        {"fn": "h_seed_kept", "what": "a given seed is stored, carried by copy() and by the dictionary round trip (seed symbolic in [0, 2^32))", "sig": "c08-seed-kept", "structure": "seed", "timeout": 60, "force_crosshair": True},
+        {"fn": "h_seed_drawn", "what": "when no seed is given an integer in [0, 2^32) is drawn, stored and carried by copies", "sig": "c08-seed-drawn", "structure": "seed"},
+        {"fn": "h_seed_reaches_engine", "what": "LibRDEngine.setup hands exactly the script's seed (mod 2^32) to the native engine, and the stored script keeps it", "sig": "c08-seed-abi", "structure": "seed"}])
